@@ -151,7 +151,7 @@ class Gen:
                 ver[0] += 1
                 m = r.choice(alive)
                 if r.random() < 0.75:
-                    out.append("c.put %s %d dm %s %s" % (r.choice(["emb", "raw"]), m, key, hx(b"v%d" % ver[0] + b"y" * r.choice([0, 40]))))
+                    out.append("c.put %s %d dm %s %s" % (r.choice(["emb", "raw"]), m, key, hx(b"v%d" % ver[0] + b"y" * r.choice([0, 40])) if r.random() > 0.1 else hx(b"")))
                 else:
                     out.append("c.del %s %d dm %s" % (r.choice(["emb", "raw"]), m, key))
             return out
